@@ -13,6 +13,9 @@ for _f in sorted(glob.glob(os.path.join(_here, "cfg", "C*.py"))):
     PROPS[_pid] = _m.PROP
     LEVEL_TEXT[_pid] = _m.LEVEL
 
+# The properties claimed in MANIFEST.json: only those the lead has reviewed and accepted.
+CLAIMED = [l.strip() for l in open(os.path.join(_here, "cfg", "claimed.txt")) if l.strip() and l.strip() in PROPS]
+
 _ids = [json.loads(l)["id"] for l in open(os.path.join(_here, "properties.jsonl")) if l.strip()]
 # Properties not (yet) claimed, each with the reason.
 _REASONS = {}
@@ -21,4 +24,4 @@ try:
 except Exception:
     pass
 NOT_APPLICABLE = {i: _REASONS.get(i, "not yet claimed: model/theorems for this property are still being built (DESIGN.md section 10 order of work); no other technique is substituted")
-                  for i in _ids if i not in PROPS}
+                  for i in _ids if i not in CLAIMED}
